@@ -1,6 +1,7 @@
 import Jwt.Lemmas.Verify
 import Jwt.Props.C11
 import Jwt.Lemmas.Pipeline
+import Jwt.Lemmas.PipelineClosed
 /-!
 # C06 — arbitrary token bytes: terminating, in-bounds, rejected unless well-formed
 
@@ -94,5 +95,10 @@ theorem C06_head_is_source (jc : JsonCodec) (head : Bytes) (x1 x2 x3 : Bool) :
 -- the premises are met: a token without dots, one with a single dot, one whose header is not base64
 example : (Jwt.Generated.Pipeline.parse false true false false false).1 = 1 := by decide
 example : (Jwt.Generated.Pipeline.parse false false false false false).1 = 0 := by decide
+
+/-- the generated `jwt_parse` returns 0 exactly when both dots were found (and the copy made) and header and payload parsed -/
+theorem C06_parse_closed_is_source : ∀ a b c d e : Bool,
+    (Jwt.Generated.Pipeline.parse a b c d e).1 = (if !a && !b && !c && !d && !e then 0 else 1) :=
+  fun a b c d e => (Jwt.Generated.Pipeline.parse_closed a b c d e).1
 
 end Jwt.Props.C06
